@@ -228,6 +228,25 @@ def _edge_pair(e1, e2):
     return fn
 
 
+def _edge_history(ek):
+    """equals() is a function of the CURRENT values: an edge that has already taken part in comparisons has its
+    information edited IN PLACE (same array object) and is compared again"""
+
+    def fn(P, g):
+        tol = _tol(P)
+        ia = [P.int("a0"), P.int("a1")]
+        a = _mk_edge(P, g, ek, "A", ia)
+        b = _mk_edge(P, g, ek, "B", [P.int("b0"), P.int("b1")])
+        safe(P, "first", lambda: a.equals(b, tol))
+        n = a.information.shape[0]
+        a.information[:] = P.sym_matrix("A2om", n)  # in place: the array object stays the same
+        ok, r = safe(P, "second", lambda: a.equals(b, tol))
+        if ok:
+            P.check("after_edit_matches_reference", P.same_truth(r, _edge_ref(P, g, a, b, tol)))
+
+    return fn
+
+
 def _edge_offset_types(P, g):
     """landmark edges whose offsets (or offset ids) are of different kinds"""
     tol = _tol(P)
@@ -344,6 +363,8 @@ def cases(tier):
         if tier == "quick" and e1 != e2 and (EDGE_KINDS.index(e1) + 3 * EDGE_KINDS.index(e2)) % 3 != 0:
             continue
         out.append(Case("edge-%s.%s-%s.%s" % (e1 + e2), _edge_pair(e1, e2), timeout=20, old_timeout=30, validate=1, feas_timeout_ms=1500))
+    for ek in EDGE_KINDS if tier == "thorough" else []:  # thorough tier only: 40 s per edge kind
+        out.append(Case("edge-history-inplace-%s.%s" % ek, _edge_history(ek), timeout=30, old_timeout=60, validate=2, feas_timeout_ms=1500))
     out.append(Case("edge-offset-and-estimate-types", _edge_offset_types, timeout=20, validate=2, feas_timeout_ms=1500))
     for which in GRAPH_VARIANTS:
         out.append(Case("graphs-" + which, _graphs(which), timeout=20, validate=2, feas_timeout_ms=1500))
